@@ -26,7 +26,10 @@ class ExcelComparator(object):
             if isinstance(self.value, bool):
                 other = False
             elif isinstance(self.value, number_types):
-                other = type(self.value)(0)  # so it's the same number type
+                try:
+                    other = type(self.value)(0)  # so it's the same number type
+                except Exception:
+                    other = 0  # a class of numbers that has no 0 (an IntEnum without such a member)
             elif isinstance(self.value, string_types):
                 other = ''
         elif isinstance(other, datetime.datetime):
